@@ -82,8 +82,36 @@ def unwrap(n):
     return n
 
 
+# reference locals of the function under interpretation that alias a member vector / a container object
+# (std::vector<DT_*> & mine = this->_elements;  Container & self = *this;): decl id -> aliased expression
+_ALIAS = {}
+
+
+def _deref_alias(n):
+    seen = 0
+    while n is not None and n.get("k") == "Ref" and n.get("dk") == "local" and n.get("d") in _ALIAS and seen < 4:
+        n = _ALIAS[n["d"]]
+        seen += 1
+    return n
+
+
+def build_aliases(fn):
+    out = {}
+    for n in fn.nodes():
+        if n.get("k") == "Var" and n.get("ref") and n.get("init") is not None:
+            i = unwrap(n["init"])
+            if i.get("k") == "Member" and (VEC_RE.search(i.get("qn", "")) or SIZE_RE.search(i.get("qn", ""))):
+                out[n["d"]] = i
+            elif i.get("k") == "This" or (i.get("k") == "Un" and i.get("op") == "*" and unwrap(i.get("e") or {}).get("k") == "This"):
+                out[n["d"]] = {"k": "This"}
+            elif i.get("k") == "Ref" and i.get("dk") in ("param", "local"):
+                out[n["d"]] = i
+    return out
+
+
 def vec_member(n):
     """(kind, base-expr) if n is a Member node naming a tracked pointer vector"""
+    n = _deref_alias(n)
     if n is not None and n.get("k") == "Member":
         m = VEC_RE.search(n.get("qn", ""))
         if m:
@@ -93,7 +121,7 @@ def vec_member(n):
 
 def obj_id(b):
     """identity of the object an expression denotes: 'this' or 'name#decl' (params/locals)"""
-    b = unwrap(b)
+    b = _deref_alias(unwrap(b))
     if b is None:
         return None
     k = b.get("k")
@@ -164,6 +192,18 @@ class Family:
                 if short(fn.cls) in self.classes and fn.body is not None and fn.tk in ("inst", "plain", "spec"):
                     yield fn
 
+    def called_on_this(self, fn):
+        """is fn called (receiver this) by some other analysed family function?"""
+        memo = self.__dict__.setdefault("_callers", None)
+        if memo is None:
+            memo = set()
+            for g in self.functions():
+                for n in g.nodes():
+                    if n.get("k") == "MCall" and n.get("cdecl") is not None and (n.get("obj") is None or unwrap(n["obj"]).get("k") == "This"):
+                        memo.add((id(g.facts), n["cdecl"], g.d.get("decl")))
+            self._callers = memo
+        return any(a == id(fn.facts) and d == fn.d.get("decl") and who != fn.d.get("decl") for a, d, who in memo)
+
     def callee_fn(self, fn, call):
         f = self.by_decl.get((id(fn.facts), call.get("cdecl")))
         if f is not None:
@@ -194,6 +234,13 @@ def enum_values(name, relpath="kernel/lafem/base.hpp"):
         val = int(mm.group(2)) if mm.group(2) else val + 1
         out[mm.group(1)] = val
     return out
+
+
+def is_inlined_helper(fam, fn):
+    """context helpers (see Interp.is_context_helper) that have callers are interpreted inside their callers only"""
+    if not (fn.name or "").startswith("_") or not fam.called_on_this(fn):
+        return False
+    return Interp(fam, fn).is_context_helper(fn)
 
 
 def interpret_cases(fam, fn, summaries):
@@ -395,8 +442,16 @@ class Interp:
         self.exits = []
         self.unknown = []
         self.touched = False
+        self.taints = {}
+        self.opaque_conds = []
+        self.taint_all = None
+        self.opaque_fills = set()
+        self.init_state = None
         self.nevents = 0
         self.par = parent_map(fn)
+        self.aliases = build_aliases(fn)
+        _ALIAS.clear()
+        _ALIAS.update(self.aliases)
         self.breaks = []
         self.conts = []
         self.fresh = 0
@@ -409,7 +464,28 @@ class Interp:
     # ---- helpers -------------------------------------------------------------------------------
     def ob(self, rule, sub, ok, detail, line):
         self.nevents += 1
+        if not ok:
+            why = self.tainted_by(sub)
+            if why:
+                # the verdict would rest on the absence of an effect that an unmodelled construct may have had
+                self.unk("%s of %s cannot be decided: %s" % (rule, sub, why))
+                ok, detail = True, "undecided: " + why
         self.obligations.append((rule, sub, bool(ok), detail, line))
+
+    def taint(self, o, why, kinds=("elements", "indices")):
+        for k in kinds:
+            self.taints.setdefault((o.split("#")[0], k), why)
+
+    def tainted_by(self, sub):
+        if self.taint_all:
+            return self.taint_all
+        m = re.match(r"^(\w+)\._(elements|indices)", sub)
+        if m:
+            return self.taints.get((m.group(1), m.group(2)))
+        m = re.match(r"^(\w+)$", sub)
+        if m:
+            return self.taints.get((m.group(1), "elements")) or self.taints.get((m.group(1), "indices"))
+        return None
 
     def unk(self, what, n=None):
         s = "%s%s" % (what, " at line %s: %s" % (n.get("l"), render(n)[:160]) if n is not None else "")
@@ -458,8 +534,31 @@ class Interp:
 
     # ---- entry ---------------------------------------------------------------------------------
     def run(self):
+        saved = dict(_ALIAS)
+        _ALIAS.clear()
+        _ALIAS.update(self.aliases)
+        try:
+            return self._run()
+        finally:
+            _ALIAS.clear()
+            _ALIAS.update(saved)
+
+    def _run(self):
         fn = self.fn
         st = {}
+        for n in fn.nodes():
+            if n.get("k") == "Lambda" and n.get("body") is not None and self.has_events(n["body"]):
+                self.taint_all = "a lambda at line %s works on the pointer vectors / MemoryPool" % n.get("l")
+        if self.init_state is not None:
+            st = dict(self.init_state)
+            try:
+                out = self.stmt(fn.body, st)
+            except Unknown as e:
+                self.unk(str(e))
+                out = None
+            if out is not None:
+                self.exits.append((out, fn.end))
+            return self
         if fn.d.get("ctor"):
             st[("flag", "this")] = "F" if self.cls == "SparseLayout" else "U"
             st[("this", "elements")] = EMPTY
@@ -611,7 +710,7 @@ class Interp:
             if (("flag", o)) not in st:
                 self.set_valid(st, o, self.fam.cls_of_type(t))
         elif self.fam.is_family_type(t) and v.get("ref") and init is not None and obj_id(init):
-            if self.has_events_on(o.split("#")[0]):
+            if v["d"] not in self.aliases and self.has_events_on(o.split("#")[0]):
                 raise Unknown("reference alias %s of a container with lifetime events" % v["n"])
         return st
 
@@ -635,6 +734,8 @@ class Interp:
         k = c.get("k")
         if k == "Bool":
             return bool(c["v"])
+        if k == "Ref" and c.get("dk") == "param" and isinstance(self.env.get(c.get("n")), bool):
+            return self.env[c["n"]]
         if k == "Ref" and c.get("v") is not None and c.get("dk") in ("smember", "global", "tparam", "enum"):
             try:
                 return bool(int(c["v"]))          # compile-time constant (std::is_same<...>::value, ...)
@@ -683,6 +784,15 @@ class Interp:
         """refine st by the branch condition c being `truth`"""
         c = unwrap(c)
         k = c.get("k")
+        if k == "Ref" and c.get("dk") == "local" and c.get("d") in self.localdefs and not self.reassigned(c["d"]):
+            init = self.localdefs[c["d"]]
+            lo, hi = init.get("i", 0), c.get("i", 0)
+            # the hoisted test is still valid if no _foreign_memory flag is written in between
+            stale = any(x.get("k") == "Assign" and unwrap(x["lhs"]).get("k") == "Member" and FLAG_RE.search(unwrap(x["lhs"]).get("qn", ""))
+                        and lo < x.get("i", 0) < hi for x in self.fn.nodes())
+            if not stale:
+                return self.refine(init, st, truth)
+            return st
         if k == "Un" and c.get("op") == "!":
             return self.refine(c["e"], st, not truth)
         if k == "Bin" and c.get("op") in ("==", "!=") and c["rhs"].get("k") == "Bool":
@@ -742,11 +852,21 @@ class Interp:
             return None
         v = self.eval_cond(c)
         a = b = None
-        if v is not False:
-            a = self.stmt(n.get("then"), self.refine(c, dict(st), True))
-        if v is not True:
-            s2 = self.refine(c, dict(st), False)
-            b = self.stmt(n["else"], s2) if n.get("else") is not None else s2
+        s1, s2 = self.refine(c, dict(st), True), self.refine(c, dict(st), False)
+        # a condition the interpreter learns nothing from may be a guard in disguise (if(owns_arrays()) ...)
+        opaque = v is None and s1 == st and s2 == st and any(
+            (is_call(x) and short(x.get("ccls", "")) in self.fam.classes) or (x.get("k") == "Ref" and x.get("dk") == "local" and "bool" in self.fn.ntype(x))
+            or (x.get("k") == "Member" and FLAG_RE.search(x.get("qn", ""))) for x in walk(c))
+        if opaque:
+            self.opaque_conds.append(render(c)[:60])
+        try:
+            if v is not False:
+                a = self.stmt(n.get("then"), s1)
+            if v is not True:
+                b = self.stmt(n["else"], s2) if n.get("else") is not None else s2
+        finally:
+            if opaque:
+                self.opaque_conds.pop()
         return join_state(a, b)
 
     def pool_loop(self, n):
@@ -771,6 +891,28 @@ class Interp:
             return None
         if n["k"] != "For":
             return None
+        # iterator form: for(auto it = O.V.begin(); it != O.V.end(); ++it) f(*it)
+        init0 = n.get("init")
+        if init0 is not None and init0.get("k") == "Decl" and len(init0["vars"]) == 1 and init0["vars"][0].get("init") is not None:
+            v0 = init0["vars"][0]
+            i0 = unwrap(v0["init"])
+            while i0.get("k") in ("Construct", "TempObj") and len(i0.get("a", [])) == 1:
+                i0 = unwrap(i0["a"][0])
+            if i0.get("k") == "MCall" and i0.get("n") in ("begin", "cbegin") and vec_member(i0.get("obj")):
+                kind0, b0 = vec_member(i0["obj"])
+                deref = arg.get("k") in ("OpCall", "Un") and arg.get("op") == "*" and \
+                    unwrap((arg.get("a") or [arg.get("e")])[0] or {}).get("d") == v0["d"]
+                c0 = unwrap(n.get("c") or {})
+                ops = c0.get("a") or [c0.get("lhs"), c0.get("rhs")]
+                endok = c0.get("op") in ("!=", "<") and len(ops) == 2 and ops[0] is not None and unwrap(ops[0]).get("d") == v0["d"]
+                e0 = unwrap(ops[1]) if endok else {}
+                while e0.get("k") in ("Construct", "TempObj") and len(e0.get("a", [])) == 1:
+                    e0 = unwrap(e0["a"][0])
+                inc0 = n.get("inc") or {}
+                incok = inc0.get("op") == "++" and unwrap((inc0.get("a") or [inc0.get("e")])[0] or {}).get("d") == v0["d"]
+                if deref and endok and incok and e0.get("k") == "MCall" and e0.get("n") in ("end", "cend") and vec_member(e0.get("obj")):
+                    k1, b1 = vec_member(e0["obj"])
+                    return what, b0, kind0, (k1 == kind0 and obj_id(b1) == obj_id(b0)), body
         # slot expression O.V.at(i) / O.V[i]
         slot = None
         if arg.get("k") == "MCall" and arg.get("n") in ("at", "operator[]") and vec_member(arg.get("obj")):
@@ -861,6 +1003,26 @@ class Interp:
             if total == 1 and toplevel == 1 and ("len", o, kind) in st and ("len", o, kind) in res and st[("len", o, kind)][comp] == L0:
                 res = dict(res)
                 self.set_len(res, o, kind, comp, trip)
+        lv = n["init"]["vars"][0]
+        for x in walk(body):
+            if is_call(x) and x.get("callee") in (POOL + "copy", POOL + "convert") and len(x.get("a", [])) >= 2:
+                d0, s0 = unwrap(x["a"][0]), unwrap(x["a"][1])
+                if d0.get("k") == "MCall" and d0.get("n") in VEC_SLOT and vec_member(d0.get("obj")) and d0.get("a") and unwrap(d0["a"][0]).get("d") == lv["d"] \
+                        and any(x is t or any(x is y for y in walk(t)) for t in top if t.get("k") not in ("If", "For", "While", "Switch")):
+                    kind, b = vec_member(d0["obj"])
+                    o = obj_id(b)
+                    src = None
+                    if s0.get("k") == "MCall" and s0.get("n") in VEC_SLOT and s0.get("a") and unwrap(s0["a"][0]).get("d") == lv["d"]:
+                        so = unwrap(s0.get("obj") or {})
+                        vm2 = vec_member(so)
+                        if vm2 and vm2[0] == kind and obj_id(vm2[1]):
+                            src = obj_id(vm2[1])
+                        elif so.get("k") == "MCall" and so.get("n") == "get_" + kind and obj_id(so.get("obj")):
+                            src = obj_id(so["obj"])
+                    if o is not None and src is not None and (o, kind) in res and ("len", o, kind) in res and res[("len", o, kind)][0] == trip \
+                            and not len_opaque(trip) and res[(o, kind)].own == "OWN":
+                        res = dict(res)
+                        res[(o, kind)] = res[(o, kind)].with_(filled={"copy:" + src.split("#")[0]})
         return res
 
     def trip_count(self, n, st):
@@ -1004,6 +1166,8 @@ class Interp:
             if not ok:
                 if vs.own in ("NOREF", "UNCOUNTED", "MOVED"):
                     why = "release loop over %s whose pointers carry no reference of this object (state %r): double release / release of foreign memory" % (name, vs)
+                elif (vs.own == "VALID" or fl != "F") and self.opaque_conds:
+                    raise Unknown("release loop over %s at line %s runs under the condition `%s`, which the check cannot relate to _foreign_memory" % (name, line, self.opaque_conds[-1]))
                 elif vs.own == "VALID" or fl != "F":
                     why = "release loop over %s is not guarded by !_foreign_memory (flag state %s, vector %r): a range (foreign-memory) object would release arrays it does not own" % (name, fl, vs)
                 else:
@@ -1098,6 +1262,14 @@ class Interp:
         name = "%s._%s" % (o.split("#")[0], kind)
         if pk == "MCall" and p.get("obj") is n:
             m = p.get("n")
+            if m in ("begin", "end", "data", "cbegin", "cend") :
+                pp = self.par.get(id(p))
+                if pp is not None and is_call(pp) and p in (pp.get("a") or []):
+                    cal = str(pp.get("callee", ""))
+                    okc = pp.get("k") in ("Construct", "TempObj") or (pp.get("k") == "MCall" and pp.get("n") in ("assign", "insert")) \
+                        or cal in ("std::distance",)
+                    if not okc:
+                        self.taint(o, "iterators of %s are handed to %s (line %s), which the check does not model" % (name, cal or "a call", line), (kind,))
             if m in VEC_READS:
                 return st
             if m in VEC_SLOT:
@@ -1107,6 +1279,8 @@ class Interp:
             if m in ("clear", "assign"):
                 return st
             raise Unknown("unmodelled std::vector operation %s on %s at line %s" % (m, name, line))
+        if pk == "Var" and p.get("ref"):
+            return st          # reference alias; uses of the alias are resolved to this member
         if pk == "OpCall" and p.get("op") == "=":
             return st
         if pk == "OpCall" and p.get("op") == "[]" and p["a"][0] is n:
@@ -1123,7 +1297,9 @@ class Interp:
             t = self.fn.type(pt[i]) if i < len(pt) else ""
             if t.startswith("const ") and t.endswith("&"):
                 return st
-            raise Unknown("pointer vector %s passed to %s as %r at line %s" % (name, p.get("callee"), t, line))
+            self.taint(o, "%s is passed to %s as %s (line %s), which the check does not model" % (name, p.get("callee"), t or "?", line), (kind,))
+            self.set_len(st, o, kind, 0, ("U", 0))
+            return st
         if pk == "Construct" or pk == "TempObj":
             return st
         raise Unknown("unrecognised use of pointer vector %s at line %s: %s" % (name, line, render(p or n)[:120]))
@@ -1185,7 +1361,7 @@ class Interp:
                     "ok" if ok else "release of slot %s of %s in state %r / flag %s" % (sk, name, vs, st[("flag", o)]), n.get("l"))
             st[("rel", o, kind)] = VS("SLOT", sk)
         else:
-            self.ob("increase-once", "%s/slot" % name, False, "single-slot increase_memory on %s is not modelled" % name, n.get("l"))
+            raise Unknown("single-slot MemoryPool::increase_memory on %s (line %s) is not modelled" % (name, n.get("l")))
         return st
 
     def content_copy(self, n, st):
@@ -1240,6 +1416,8 @@ class Interp:
                 continue
             self.ensure(st, o, self.obj_type(a))
             self.nevents += 1
+            if self.fam.callee_fn(self.fn, n) is None:
+                self.taint(o, "%s is handed to %s (line %s), which the check does not model" % (o.split("#")[0], n.get("callee", "a call"), n.get("l")))
             self.check_valid(o, st, "passed to %s" % short(n.get("callee", "")), n.get("l"))
             self.set_valid(st, o, self.fam.cls_of_type(self.obj_type(a)) if o != "this" else self.cls)
         return st
@@ -1261,6 +1439,10 @@ class Interp:
         callee = self.fam.callee_fn(self.fn, n)
         if not ctor and self.move_transfer(o, n, st, callee):
             return st
+        if callee is None and not ctor:
+            self.taint(o, "%s() is called on %s (line %s) but its body is not part of the analysed program" % (n.get("callee", "?"), o.split("#")[0], n.get("l")))
+        if callee is not None and not ctor and self.inline_helper(o, n, st, callee):
+            return st
         summ = self.summary(callee, n) if callee is not None else None
         if summ == "identity" and not ctor:
             return st          # the callee neither touches the arrays nor calls anything that does
@@ -1274,7 +1456,7 @@ class Interp:
         self._objcls[o] = cls_short
         if summ is not None:
             fl, ve, vi = summ
-            if consistent(ve, fl) and consistent(vi, fl) and fl in ("F", "T") and ve.own != "VALID" and vi.own != "VALID":
+            if fl in ("F", "T", "U") and ve.own in ("EMPTY", "OWN", "NOREF", "UNCOUNTED") and vi.own in ("EMPTY", "OWN", "NOREF", "UNCOUNTED"):
                 st[("flag", o)] = fl
                 st[(o, "elements")] = VS(ve.own, None, ve.origin)
                 st[(o, "indices")] = VS(vi.own, None, vi.origin)
@@ -1285,6 +1467,68 @@ class Interp:
                 return st
         self.set_valid(st, o, cls_short)
         return st
+
+    def is_context_helper(self, callee):
+        """a private piece of a lifetime function (leading underscore, parameterless or not) whose stand-alone
+        interpretation fails ownership obligations: it only makes sense in the state its callers establish"""
+        memo = self.fam.__dict__.setdefault("_ctxhelper", {})
+        if id(callee) in memo:
+            return memo[id(callee)]
+        res = False
+        if callee.name and callee.name.startswith("_") and not callee.d.get("ctor") and not callee.d.get("dtor") and self.depth < 4:
+            memo[id(callee)] = False
+            it = Interp(self.fam, callee, summaries={}, depth=self.depth + 2).run()
+            bad = [o_ for o_ in it.obligations + exit_obligations(it) if not o_[2] and o_[0] != "index-array-write"]
+            res = bool(bad) and not it.unknown
+        memo[id(callee)] = res
+        return res
+
+    def inline_helper(self, o, n, st, callee):
+        """interpret a context helper in the caller's state of the receiver"""
+        if not self.is_context_helper(callee):
+            return False
+        init = {}
+        for k, v in st.items():
+            if len(k) >= 2 and k[0] == o:
+                init[("this",) + k[1:]] = v
+            elif len(k) >= 2 and k[1] == o and k[0] in ("flag", "len", "fs", "pend", "rel"):
+                init[(k[0], "this") + k[2:]] = v
+        it = Interp(self.fam, callee, env=self.call_env(callee, n), summaries=self.summaries, depth=self.depth + 1)
+        it.init_state = init
+        it.run()
+        for u in it.unknown:
+            self.unk("in helper %s: %s" % (short(callee.qn), u))
+        tag = "this" if o == "this" else o.split("#")[0]
+        for (r, sub, ok, det, line) in it.obligations:
+            sub2 = re.sub(r"^this\b", tag, sub)
+            self.nevents += 1
+            self.obligations.append((r, sub2, ok, ("[in helper %s] " % short(callee.qn)) + det if not ok else det, line))
+        out = None
+        for s_, _ in it.exits:
+            out = join_state(out, s_)
+        if out is None:
+            return True
+        ren = {}
+        for p_, a_ in zip(callee.params, n.get("a") or []):
+            ao = obj_id(a_)
+            if ao is not None:
+                ren[p_["n"]] = "this" if ao == "this" else ao.split("#")[0]
+
+        def retag(tags):
+            return frozenset((t.split(":", 1)[0] + ":" + ren.get(t.split(":", 1)[1], t.split(":", 1)[1])) if ":" in t else t for t in tags)
+        for k, v in list(out.items()):
+            if isinstance(v, VS):
+                out[k] = VS(v.own, v.g, retag(v.origin), retag(v.filled))
+        for k, v in out.items():
+            if len(k) >= 2 and k[0] == "this":
+                st[(o,) + k[1:]] = v
+            elif len(k) >= 2 and k[1] == "this" and k[0] in ("flag", "len", "fs", "pend", "rel"):
+                st[(k[0], o) + k[2:]] = v
+        for (name, kind), why in it.taints.items():
+            if name == "this":
+                self.taints.setdefault((tag, kind), why)
+        self.touched = self.touched or it.touched
+        return True
 
     def move_transfer(self, o, n, st, callee):
         """`O.move(std::move(X))` (Container::move, itself verified): O takes over X's arrays, state and all.
@@ -1342,8 +1586,13 @@ class Interp:
         if callee is None or call is None:
             return env
         for p, a in zip(callee.params, call.get("a") or []):
-            if short(callee.type(p["t"])).replace("const ", "").strip() == "CloneMode":
+            t = short(callee.type(p["t"])).replace("const ", "").strip()
+            if t == "CloneMode":
                 v = self.const_of(a)
+                if v is not None:
+                    env[p["n"]] = v
+            elif t == "bool":
+                v = self.eval_cond(a)
                 if v is not None:
                     env[p["n"]] = v
         return env
@@ -1491,6 +1740,7 @@ def _src_of_range(self, args, kind):
 
 
 def size_member(n):
+    n = _deref_alias(n)
     if n is not None and n.get("k") == "Member":
         m = SIZE_RE.search(n.get("qn", ""))
         if m:
@@ -1551,6 +1801,22 @@ def _range_src(args):
 def _event_len(self, n, st, base_init, decl_obj):
     """length bookkeeping of V / V_size, layered over the ownership events"""
     k = n.get("k")
+    if k == "Member" and size_member(n):
+        kind, b = size_member(n)
+        o = obj_id(b)
+        p = self.par.get(id(n)) or {}
+        pk = p.get("k")
+        known = (pk == "MCall" and p.get("obj") is n) or (pk == "OpCall" and p.get("op") in ("=", "[]")) or pk in ("ForRange", "Return") \
+            or (pk == "Call" and p.get("callee") in ("std::move", "std::forward")) or pk in ("Construct", "TempObj")
+        if not known and pk in ("Call", "MCall") and n in (p.get("a") or []):
+            i = p["a"].index(n)
+            pt = p.get("pt") or []
+            t = self.fn.type(pt[i]) if i < len(pt) else ""
+            known = t.startswith("const ") and t.endswith("&")
+        if not known and o is not None:
+            self.ensure(st, o, self.obj_type(b))
+            self.set_len(st, o, kind, 1, ("U", 0))
+        return st
     if k == "MCall" and n.get("obj") is not None:
         for fn_, comp in ((vec_member, 0), (size_member, 1)):
             vm = fn_(n["obj"])
@@ -1635,19 +1901,19 @@ def _idx_accessor_slot(self, callee):
     return res
 
 
-def _idx_expr(self, e, depth=0):
-    """(object id, slot K or '?') if e is a pointer into an array stored in O._indices, else None"""
+def _idx_expr(self, e, depth=0, kind="indices"):
+    """(object id, slot K or '?') if e is a pointer into an array stored in O._<kind>, else None"""
     e = _strip_ptr(e)
     if e is None or depth > 8:
         return None
     k = e.get("k")
-    if k == "MCall" and e.get("n") in VEC_SLOT and vec_member(e.get("obj")) and vec_member(e["obj"])[0] == "indices":
+    if k == "MCall" and e.get("n") in VEC_SLOT and vec_member(e.get("obj")) and vec_member(e["obj"])[0] == kind:
         o = obj_id(vec_member(e["obj"])[1])
         if o is None:
             return None
         a = e.get("a") or []
         return o, (int(unwrap(a[0])["v"]) if a and unwrap(a[0]).get("k") == "Int" else "?")
-    if k == "OpCall" and e.get("op") == "[]" and e.get("a") and vec_member(e["a"][0]) and vec_member(e["a"][0])[0] == "indices":
+    if k == "OpCall" and e.get("op") == "[]" and e.get("a") and vec_member(e["a"][0]) and vec_member(e["a"][0])[0] == kind:
         o = obj_id(vec_member(e["a"][0])[1])
         if o is None:
             return None
@@ -1657,18 +1923,18 @@ def _idx_expr(self, e, depth=0):
         o = obj_id(e["obj"]) if e.get("obj") is not None else "this"
         if o is None:
             return None
-        slot = _idx_accessor_slot(self, self.fam.callee_fn(self.fn, e))
+        slot = _idx_accessor_slot(self, self.fam.callee_fn(self.fn, e)) if kind == "indices" else None
         return (o, slot) if slot is not None else None
     if k == "Bin" and e.get("op") in ("+", "-"):
-        return _idx_expr(self, e["lhs"], depth + 1)
+        return _idx_expr(self, e["lhs"], depth + 1, kind)
     if k == "Un" and e.get("op") == "&":
         x = unwrap(e["e"])
         if x.get("k") == "Index":
-            return _idx_expr(self, x["b"], depth + 1)
+            return _idx_expr(self, x["b"], depth + 1, kind)
         return None
     if k == "Ref" and e.get("dk") == "local" and "*" in self.fn.ntype(e):
         defs = self.ptr_defs().get(e["d"], [])
-        got = [g for g in (_idx_expr(self, d, depth + 1) for d in defs) if g is not None]
+        got = [g for g in (_idx_expr(self, d, depth + 1, kind) for d in defs) if g is not None]
         if not got:
             return None
         if all(g == got[0] for g in got):
@@ -1728,10 +1994,19 @@ def _event_idx(self, n, st, base_init, decl_obj):
                 _idx_write(self, tgt, st, "store `%s`" % render(n)[:70], n)
     elif is_call(n) and n.get("callee") not in (POOL + "release_memory", POOL + "increase_memory", POOL + "allocated_size"):
         pts = n.get("pt") or []
+        cal = str(n.get("callee", ""))
         for i, a in enumerate(n.get("a") or []):
             t = self.fn.type(pts[i]) if i < len(pts) else ""
             if "*" not in t or _const_pointee(t):
                 continue
+            for kd in ("elements", "indices"):
+                sl = _idx_expr(self, a, 0, kd)
+                if sl is not None and cal not in (POOL + "copy", POOL + "convert"):
+                    # the array may be filled (or, for callees we do not know, even released) there
+                    self.opaque_fills.add((sl[0], kd))
+                    if not re.match(r"^(FEAT::MemoryPool::|memcpy$|memset$|memmove$|std::(copy|fill|memcpy|memset|memmove|transform|generate|iota|sort)|FEAT::Pack::|FEAT::LAFEM::Arch::)", cal) \
+                            and short(n.get("ccls", "")) not in self.fam.classes:
+                        self.taint(sl[0], "an array of %s._%s is passed to %s (line %s), which the check does not model" % (sl[0].split("#")[0], kd, cal or "a call", n.get("l")), (kd,))
             tgt = _idx_expr(self, a)
             if tgt is not None:
                 _idx_write(self, tgt, st, "call %s(... %s ...) (mutable parameter %s)" % (short(n.get("callee", "")), render(a)[:40], (n.get("pn") or ["?"] * (i + 1))[i] if i < len(n.get("pn") or []) else "?"), n)
@@ -1835,12 +2110,96 @@ def _norm_extent(it, e):
             nm = cf[j + 2:]
         ob = unwrap(e.get("obj")) if e.get("obj") is not None else None
         rec = "this" if ob is None or ob.get("k") == "This" else _norm_extent(it, ob)
+        if not e.get("a"):
+            nm = nm.lstrip("_")          # _rows() / rows(): private and public accessor of the same slot
         return "%s.%s(%s)" % (rec, re.sub(r"\s+", "", nm), ",".join(_norm_extent(it, a) for a in e.get("a", [])))
     if k == "Member":
         ob = unwrap(e.get("b")) if e.get("b") is not None else None
         rec = "this" if ob is None or ob.get("k") == "This" else _norm_extent(it, ob)
         return "%s.%s" % (rec, e["n"])
     return render(e)
+
+
+def poly(it, e, depth=0):
+    """polynomial normal form {monomial(tuple of atoms): coeff} of an integer extent expression"""
+    e = unwrap(e)
+    k = e.get("k")
+    if depth > 12:
+        return {(render(e),): 1}
+    if k == "Int":
+        v = int(e["v"])
+        return {(): v} if v else {}
+    if k in ("Construct", "TempObj") and len(e.get("a", [])) == 1:
+        return poly(it, e["a"][0], depth + 1)
+    if k == "Ref" and e.get("dk") == "local" and INT_T.match(it.fn.ntype(e)):
+        d = it.localdefs.get(e["d"])
+        if d is not None and not it.reassigned(e["d"]):
+            return poly(it, d, depth + 1)
+    if k == "Ref" and e.get("v") is not None and e.get("dk") in ("tparam", "enum", "smember", "global"):
+        v = int(e["v"])
+        return {(): v} if v else {}
+    if k == "Bin" and e.get("op") in ("+", "-"):
+        a, b = poly(it, e["lhs"], depth + 1), poly(it, e["rhs"], depth + 1)
+        out = dict(a)
+        for m, c in b.items():
+            out[m] = out.get(m, 0) + (c if e["op"] == "+" else -c)
+        return {m: c for m, c in out.items() if c}
+    if k == "Bin" and e.get("op") == "*":
+        a, b = poly(it, e["lhs"], depth + 1), poly(it, e["rhs"], depth + 1)
+        out = {}
+        for m1, c1 in a.items():
+            for m2, c2 in b.items():
+                m = tuple(sorted(m1 + m2))
+                out[m] = out.get(m, 0) + c1 * c2
+        return {m: c for m, c in out.items() if c}
+    return {(_norm_extent(it, e),): 1}
+
+
+def pmul(p, c):
+    return {m: v * c for m, v in p.items() if v * c}
+
+
+def pshow(p):
+    if not p:
+        return "0"
+    return " + ".join(str(c) if not m else ("%d*" % c if c != 1 else "") + "*".join(m) for m, c in sorted(p.items(), key=lambda kv: (not kv[0], kv[0])))
+
+
+def psub(a, b):
+    out = dict(a)
+    for m, c in b.items():
+        out[m] = out.get(m, 0) - c
+    return {m: c for m, c in out.items() if c}
+
+
+def single_atom(p):
+    ms = [m for m in p if m]
+    if len(ms) == 1 and len(ms[0]) == 1 and p[ms[0]] == 1:
+        return ms[0][0]
+    return None
+
+
+
+def poly_verdict(p, q):
+    """'eq' | 'ne' | 'unknown' for two extent polynomials over opaque size atoms.
+    'ne' (definitely different quantities) only if they differ by a non-zero constant, or the differing atoms are all
+    accessor calls on one and the same object (two different accessors / perspectives of one object are different
+    quantities by the repository's own naming); atoms of different objects or locals may be equal in value."""
+    d = psub(p, q)
+    if not d:
+        return "eq"
+    if all(not m for m in d):
+        return "ne"
+    atoms = set()
+    for m in d:
+        atoms.update(m)
+    recv = set()
+    for a in atoms:
+        mm = re.match(r"^([\w>-]+(?:#\d+)?)\.[\w<>:, ]+\(\)$", a)
+        if not mm:
+            return "unknown"
+        recv.add(mm.group(1))
+    return "ne" if len(recv) == 1 else "unknown"
 
 
 def pair_pushes(fam, fn):
@@ -1886,17 +2245,21 @@ def pair_pushes(fam, fn):
                 if not S:
                     for i, p in enumerate(P):
                         org, e = it.classify_ptr(p[3]["a"][0])
-                        ok, det = False, "array pushed into %s without a push into _%s_size in the same statement list" % (name, kind)
+                        ok, det = None, "array pushed into %s without a push into _%s_size in the same statement list" % (name, kind)
                         if org == "alloc":
                             ext = unwrap(e["a"][0]) if e.get("a") else None
                             extn = _norm_extent(it, ext) if ext is not None else ""
                             m = re.match(r"^(\w+)\._%s_size\.at\((\w+)\)$" % kind, extn)
                             if m and m.group(1) == o.split("#")[0] and loopvar is not None and m.group(2) == loopvar and len(P) == 1:
                                 ok, det = True, "indexed pairing: slot i of %s is allocated with extent _%s_size.at(i)" % (name, kind)
-                        obs.append(("%s/%d" % (name, i), ok, det, p[3].get("l"), False))
+                        if ok is None:
+                            # the extent may be recorded elsewhere (another block, a helper): the length rule decides the count
+                            obs.append(("%s/%d" % (name, i), True, "undecided: " + det, p[3].get("l"), True))
+                        else:
+                            obs.append(("%s/%d" % (name, i), ok, det, p[3].get("l"), False))
                     continue
                 if len(P) != len(S):
-                    obs.append(("%s/count" % name, False, "%d arrays pushed into %s but %d extents pushed into _%s_size in the same statement list" % (len(P), name, len(S), kind), P[0][3].get("l"), False))
+                    obs.append(("%s/count" % name, True, "undecided: %d arrays pushed into %s but %d extents pushed into _%s_size in the same statement list (the length rule decides the count)" % (len(P), name, len(S), kind), P[0][3].get("l"), True))
                     continue
                 for i, (p, s) in enumerate(zip(P, S)):
                     org, e = it.classify_ptr(p[3]["a"][0])
@@ -1904,8 +2267,12 @@ def pair_pushes(fam, fn):
                     line = p[3].get("l")
                     if org == "alloc":
                         ext = _norm_extent(it, e["a"][0]) if e.get("a") else "?"
-                        ok = ext == sz
-                        obs.append(("%s/%d" % (name, i), ok, "array %d of %s allocated with extent %s, recorded extent %s" % (i, name, ext, sz), line, False))
+                        v = "eq" if ext == sz else (poly_verdict(poly(it, e["a"][0]), poly(it, s[3]["a"][0])) if e.get("a") else "unknown")
+                        det = "array %d of %s allocated with extent %s, recorded extent %s" % (i, name, ext, sz)
+                        if v == "unknown":
+                            obs.append(("%s/%d" % (name, i), True, "undecided: " + det + " (quantities of different objects, not comparable)", line, True))
+                        else:
+                            obs.append(("%s/%d" % (name, i), v == "eq", det, line, False))
                         continue
                     # shared array of a vector object X
                     e0 = unwrap(e)
@@ -2001,6 +2368,9 @@ def exit_obligations(it):
                             det = "exit at line %s: %s is governed by the flag value %s but _foreign_memory is %s on this path" % (line, name, vs.g, fl)
                         else:
                             det = "exit at line %s: paths disagree on the ownership of %s (%r, flag %s)" % (line, name, vs, fl)
+                if not ok and it.tainted_by(name):
+                    it.unk("%s of %s cannot be decided: %s" % (rule, name, it.tainted_by(name)))
+                    ok, det = True, "undecided: " + it.tainted_by(name)
                 prev = out.get((rule, name))
                 if prev is None or (prev[0] and not ok):
                     out[(rule, name)] = (ok, det, line)
@@ -2016,6 +2386,8 @@ def exit_obligations(it):
                         ok2, det2 = True, "ok"
                     elif len_opaque(ln[0]) or len_opaque(ln[1]):
                         ok2, det2 = True, "undecided: lengths %s / %s depend on data-dependent loop bounds" % (show_len(ln[0]), show_len(ln[1]))
+                    elif it.tainted_by(name):
+                        ok2, det2 = True, "undecided: " + it.tainted_by(name)
                     else:
                         ok2 = False
                         det2 = "exit at line %s: %s holds %s arrays but %s_size holds %s extents: a clear()/assign()/move of one vector is not matched on its partner, so slot i of the size vector no longer describes array i (format/clone/copy/serialize then use the extent of another array)" % (
@@ -2086,6 +2458,8 @@ def classify(vs, flag, it, obj_kind, srcname):
         if vs.filled == {"copy:" + srcname}:
             return "fresh+copy"
         if not vs.filled:
+            if ("this", obj_kind) in getattr(it, "opaque_fills", ()):
+                return "unknown(fresh arrays handed to a call the check does not model - they may be filled there)"
             return "fresh"
     return "other(%r)" % (vs,)
 
@@ -2292,6 +2666,9 @@ def cross_clone_rules(ck, fam, seen_fail, rule="C02.clone-cross-type"):
                 sub = "Container::clone<DT2,IT2>/CloneMode::%s/%s/%s" % (mode, combo, kind)
                 if want == "shared":
                     ck.ob(rule, sub, True, "documented as shared: no independence required (extracted: %s)" % got[kind], fn.file, fn.line, trivial=True)
+                    continue
+                if got[kind] not in ("fresh", "shared"):
+                    ck.incomplete(rule, "%s with clone_mode == %s: aliasing of the %s arrays not derivable (%s)" % (fkey(fn), mode, kind, got[kind]))
                     continue
                 ok = got[kind] == "fresh"
                 if not ok:
